@@ -202,6 +202,9 @@ def gen_program(rng, big=None):
     seedctr = rng.below(900)
     nsteps = rng.range(5, 12)
     has_recstride = False
+    # one program in three may stride along the record dimension (the request class that
+    # flatten_req mishandles under aggregation would otherwise dominate every aggregated run)
+    allow_recstride = rng.chance(1, 3)
     for si in range(nsteps):
         c = rng.below(100)
         v = rng.choice(s.vars)
@@ -209,6 +212,8 @@ def gen_program(rng, big=None):
             v = s.vars[p.bigvid]
         if c < 50:
             start, count, stride = rand_request(rng, v, numrecs, True)
+            if v.isrec and not allow_recstride:
+                stride[0] = 1
             if v.vid == p.bigvid and rng.chance(2, 3):
                 start, count, stride = [0, 0], list(v.shape), [1, 1]
                 if rng.chance(1, 2):
@@ -605,7 +610,7 @@ def observe(p, sess, trace, res):
             o = res.impl.get((ln, r))
             rc = int(o[1]) if (o is not None and len(o) > 1) else None
             ob['rc'].setdefault(t['key'], set()).add(rc)
-            if not t['isput'] and rc == 0 and t['n'] > 0:
+            if not t['isput'] and rc in (0, -60) and t['n'] > 0:
                 el = piece_elements(o[2], t['buf'], t['memk'], t['n'])
                 if el is not None:
                     g = ob['get'].setdefault(t['key'], {})
@@ -627,8 +632,17 @@ def compare(p, ref, ob):
     """differences between the logical observations of two runs of the same logical program:
     list of (what, detail).  Never-written elements are not compared."""
     diffs = []
+    def norm(k, rcs):
+        # never-written elements hold anything: a range error (NC_ERANGE) on a read that touches
+        # them is legitimate and may differ between runs
+        if rcs is None:
+            return None
+        st, lop = step_of(p, k)
+        if lop is not None and lop['op'] == 'get' and not all(lop['defined']):
+            return set(0 if x == -60 else x for x in rcs)
+        return rcs
     for k in sorted(set(ref['rc']) | set(ob['rc']), key=str):
-        a, b = ref['rc'].get(k), ob['rc'].get(k)
+        a, b = norm(k, ref['rc'].get(k)), norm(k, ob['rc'].get(k))
         if a != b:
             diffs.append(('return-code', 'logical access %s: %s vs %s' % (k, sorted(a, key=str) if a else a,
                                                                          sorted(b, key=str) if b else b)))
@@ -645,7 +659,7 @@ def compare(p, ref, ob):
                 continue
             va, vb = ga.get(e), gb.get(e)
             if va is None or vb is None:
-                if (ref['rc'].get(k) == {0}) and (ob['rc'].get(k) == {0}):
+                if (norm(k, ref['rc'].get(k)) == {0}) and (norm(k, ob['rc'].get(k)) == {0}):
                     diffs.append(('data-differs', 'logical get %s element %d not delivered (%s vs %s)' % (k, e, va, vb)))
                     break
                 continue
